@@ -176,6 +176,13 @@ func (o *obs) walk(mask ObsMask) {
 			continue
 		}
 		o.rec("walk %d %v", mc, got)
+		// an offset that shows up twice, or out of order, was assigned twice
+		for i := 1; i < len(got); i++ {
+			if got[i].Off <= got[i-1].Off {
+				w.failf("C01,C02,C03", "cursor walk(max=%d) returns offset %d after offset %d: %v", mc, got[i].Off, got[i-1].Off, offsOf(got))
+				break
+			}
+		}
 		if len(got) != len(w.M.Live) {
 			w.failf("C01", "cursor walk(max=%d) saw %d messages %v, want %d %v", mc, len(got), offsOf(got), len(w.M.Live), offsOf(w.M.Live))
 			continue
